@@ -273,3 +273,79 @@ def fusion_component_lineage(ctx, clause: str, class_names=("ShallowFusionLangua
                                    rel, c.lineno, nontrivial=False)
     col.count("fusion_state_sites", nsites)
     col.floor("fusion_state_sites", nsites, 16)
+
+
+def finished_mass_on_eos(ctx, f, clause: str, floor: int = 1):
+    """A finished path puts its whole mass on eos: the step's scores are first cleared (-inf) under the per-path finished
+    mask F and then the eos column is set to 0 under `F & one_hot(eos)`. Both writes must be masked by the SAME mask F: a
+    different (e.g. per-element) mask in the first write leaves the model's own scores on the non-eos columns of a finished
+    path, so it re-enters the beam as itself with junk appended."""
+    import ast
+    from sa.astutil import is_neg_inf, u
+    from sa.defuse import ReachingDefs
+    from sa.model import AnalysisError, own_nodes
+    col = ctx.col
+    rd = ReachingDefs(f.node)
+    rel = f.module.relname
+    where = f"{rel}::{f.qualname}"
+
+    def strip_shape(e):
+        while isinstance(e, ast.Call) and isinstance(e.func, ast.Attribute) and e.func.attr in ("unsqueeze", "to", "view", "expand", "bool"):
+            e = e.func.value
+        return e
+
+    def mask_base(e):
+        """(base Name node, has one_hot factor) of a mask expression, through one level of names."""
+        e = strip_shape(e)
+        if isinstance(e, ast.Name):
+            ds = list(rd.defs_of(e))
+            if len(ds) == 1 and ds[0].kind == "assign" and isinstance(ds[0].value, ast.BinOp):
+                return mask_base(ds[0].value)
+            return e, False
+        if isinstance(e, ast.BinOp) and isinstance(e.op, ast.BitAnd):
+            sides = [strip_shape(e.left), strip_shape(e.right)]
+            oh = [s for s in sides if any(isinstance(x, ast.Call) and u(x.func).endswith("one_hot") for x in ast.walk(s))]
+            rest = [s for s in sides if s not in oh]
+            if len(oh) == 1 and len(rest) == 1 and isinstance(rest[0], ast.Name):
+                return rest[0], True
+        return None, False
+
+    def same_value(a, b):
+        return a.id == b.id and rd.defs_of(a) == rd.defs_of(b)
+    n = 0
+    for st in own_nodes(f.node):
+        if not (isinstance(st, ast.Assign) and isinstance(st.value, ast.Call) and isinstance(st.value.func, ast.Attribute)
+                and st.value.func.attr == "masked_fill" and len(st.value.args) == 2):
+            continue
+        c2 = st.value
+        v2 = c2.args[1]
+        if not (isinstance(v2, ast.Constant) and v2.value == 0):
+            continue
+        b2, oh = mask_base(c2.args[0])
+        if not oh or b2 is None:
+            continue
+        # the tensor it is applied to must be the result of the -inf write
+        recv = c2.func.value
+        firsts = []
+        if isinstance(recv, ast.Name):
+            for d in rd.defs_of(recv):
+                v = d.value
+                if isinstance(v, ast.Call) and isinstance(v.func, ast.Attribute) and v.func.attr == "masked_fill" \
+                        and len(v.args) == 2 and is_neg_inf(v.args[1]):
+                    firsts.append(v)
+        elif isinstance(recv, ast.Call) and isinstance(recv.func, ast.Attribute) and recv.func.attr == "masked_fill" \
+                and len(recv.args) == 2 and is_neg_inf(recv.args[1]):
+            firsts.append(recv)
+        n += 1
+        ok = False
+        got = None
+        if len(firsts) == 1:
+            b1, oh1 = mask_base(firsts[0].args[0])
+            got = u(firsts[0].args[0])
+            ok = b1 is not None and not oh1 and same_value(b1, b2)
+        col.ob("G13", clause, f"{where}::finished-path-cleared-under-its-own-mask", ok,
+               f"the eos column is set to 0 under `{u(b2)}` & one_hot(eos) but the other columns are cleared under `{got}`: a "
+               f"finished path keeps the model's scores for non-eos tokens and competes as a continuation of itself", rel,
+               st.lineno, sample=dict(cleared_under=got, eos_set_under=u(c2.args[0])))
+    if n < floor:
+        col.undecided(f"{where}: the 'finished path puts its mass on eos' idiom was not found")
